@@ -104,6 +104,30 @@ def width(x, n=None):
 def extract(hi, lo, x):
     if isinstance(x, int): return (x >> lo) & mask(hi - lo + 1)
     if lo == 0 and hi == x.size() - 1: return x
+    if z3.is_app_of(x, z3.Z3_OP_CONCAT):
+        # bitcasts between vector shapes build Concat(lanes) and slice it again: resolve the slice to the lane it falls into
+        top = x.size()
+        for i in range(x.num_args()):
+            a = x.arg(i); alo = top - a.size()
+            if lo >= alo and hi < top:
+                return extract(hi - alo, lo - alo, a)
+            top = alo
+            if top <= lo: break
+    if z3.is_app_of(x, z3.Z3_OP_EXTRACT):
+        l0 = x.params()[1]
+        return extract(hi + l0, lo + l0, x.arg(0))
+    k = x.decl().kind() if z3.is_app(x) else None
+    if k in (z3.Z3_OP_BXOR, z3.Z3_OP_BAND, z3.Z3_OP_BOR, z3.Z3_OP_BNOT) and x.num_args() <= 4:
+        # slices distribute over bitwise operators (lane-wise masks written on a wider element type)
+        parts = [extract(hi, lo, x.arg(i)) for i in range(x.num_args())]
+        parts = [bv(p_, hi - lo + 1) for p_ in parts]
+        if k == z3.Z3_OP_BNOT: return ~parts[0]
+        r = parts[0]
+        for p_ in parts[1:]:
+            r = (r ^ p_) if k == z3.Z3_OP_BXOR else ((r & p_) if k == z3.Z3_OP_BAND else (r | p_))
+        return r
+    if z3.is_bv_value(x):
+        return z3.BitVecVal((x.as_long() >> lo) & mask(hi - lo + 1), hi - lo + 1)
     return z3.Extract(hi, lo, x)
 
 
@@ -132,6 +156,23 @@ def concat_le(parts):
     return z3.Concat(*reversed(merged))
 
 
+def bits_to_fp(b, n):
+    """fpBVToFP with sign manipulations lifted to fp.neg / fp.abs (sound for every bit pattern: all NaNs are one FP value), so that
+    kernels that negate by xor-ing the sign bit produce the same term as the oracle's fp.neg"""
+    sb = 1 << (n - 1)
+    if z3.is_app_of(b, z3.Z3_OP_BXOR) and b.num_args() == 2:
+        for i in (0, 1):
+            c = b.arg(i)
+            if z3.is_bv_value(c) and c.as_long() == sb:
+                return z3.fpNeg(bits_to_fp(b.arg(1 - i), n))
+    if z3.is_app_of(b, z3.Z3_OP_BAND) and b.num_args() == 2:
+        for i in (0, 1):
+            c = b.arg(i)
+            if z3.is_bv_value(c) and c.as_long() == sb - 1:
+                return z3.fpAbs(bits_to_fp(b.arg(1 - i), n))
+    return z3.fpBVToFP(b, FSORT[n])
+
+
 class F:
     """floating point value of width n"""
     __slots__ = ('n', '_bits', '_fp', 'ex')
@@ -141,7 +182,7 @@ class F:
 
     def fp(s):
         if s._fp is None:
-            s._fp = z3.fpBVToFP(bv(s._bits, s.n), FSORT[s.n])
+            s._fp = bits_to_fp(bv(s._bits, s.n), s.n)
         return s._fp
 
     def bits(s):
@@ -1160,7 +1201,10 @@ class Executor:
                 R[ins.res] = s.fp_arith(st, op, ins.ty.n, [a, b], fm)
         elif op == 'fneg':
             a = s.val(st, ins.ops[0])
-            neg = lambda x: F(x.n, bits=(x.bits() ^ (1 << (x.n - 1))) if is_c(x.bits()) else (x.bits() ^ z3.BitVecVal(1 << (x.n - 1), x.n)))
+            def neg(x):
+                if x._bits is not None:
+                    return F(x.n, bits=(x._bits ^ (1 << (x.n - 1))) if is_c(x._bits) else (x._bits ^ z3.BitVecVal(1 << (x.n - 1), x.n)))
+                return F(x.n, fp=z3.fpNeg(x._fp))
             R[ins.res] = [neg(x) for x in a] if isinstance(ins.ty, VecT) else neg(a)
         elif op == 'icmp':
             a = s.val(st, ins.ops[0]); b = s.val(st, ins.ops[1]); ty = ins.ops[0][0]; pred = ins.extra['pred']
